@@ -566,7 +566,7 @@ func jsStr(s string) string {
 func TestCheck(t *testing.T) {
 	ev = drv.NewEvidence("C11", "exploration", rule)
 	ev.Assume("the expectation for each value is derived from the conversion table in the js package documentation; only documented conversions have expectations")
-	nProg, nProbe := 8, 120
+	nProg, nProbe := 24, 150
 	if drv.Thorough() {
 		nProg, nProbe = 200, 200
 	}
